@@ -36,7 +36,7 @@
 //     '#', '!' or [..]: those belong to C10); budgets 0..3, possibly different for the
 //     two primers in the library checks (one -e for both in the command).
 //   - Templates: lower-case acgt plus some IUPAC ambiguity codes (which match nothing),
-//     length 0..~400 (in-process; 1..15 kb and up to 1.5 Mb in long_test.go), empty FASTA records are not given to the command
+//     length 0..~400 (in-process; 1..35 kb and up to 1.5 Mb in long_test.go), empty FASTA records are not given to the command
 //     (the readers' business, C01).
 //   - Circular templates: every pair (f, r) is "downstream" on a circle.  Pairs whose
 //     product with its two priming sites is longer than the template (the two priming
@@ -86,16 +86,16 @@ func TestMain(m *testing.M) {
 		evid.Spec{Name: "TestPropCLI", Kind: "rapid", Quick: 160, Thorough: 6000, QuickShards: 4, ThoroughShards: 16},
 		evid.Spec{Name: "TestPropCLIFragmented", Kind: "rapid", Quick: 80, Thorough: 3000, QuickShards: 4, ThoroughShards: 16},
 		// long templates / long amplicons (long_test.go)
-		evid.Spec{Name: "TestPropLong", Kind: "rapid", Quick: 1600, Thorough: 80000, QuickShards: 4, ThoroughShards: 16},
-		evid.Spec{Name: "TestPropCLILong", Kind: "rapid", Quick: 48, Thorough: 2000, QuickShards: 4, ThoroughShards: 16},
-		evid.Spec{Name: "TestPropCLILongFragmented", Kind: "rapid", Quick: 16, Thorough: 400, QuickShards: 4, ThoroughShards: 16},
+		evid.Spec{Name: "TestPropLong", Kind: "rapid", Quick: 2400, Thorough: 60000, QuickShards: 4, ThoroughShards: 16},
+		evid.Spec{Name: "TestPropCLILong", Kind: "rapid", Quick: 64, Thorough: 2000, QuickShards: 4, ThoroughShards: 16},
+		evid.Spec{Name: "TestPropCLILongFragmented", Kind: "rapid", Quick: 12, Thorough: 400, QuickShards: 4, ThoroughShards: 16},
 		// annotated templates, nested PCR (nested_test.go)
-		evid.Spec{Name: "TestPropAnnotated", Kind: "rapid", Quick: 6000, Thorough: 300000, QuickShards: 4, ThoroughShards: 16},
-		evid.Spec{Name: "TestPropCLINested", Kind: "rapid", Quick: 120, Thorough: 5000, QuickShards: 4, ThoroughShards: 16},
+		evid.Spec{Name: "TestPropAnnotated", Kind: "rapid", Quick: 8000, Thorough: 250000, QuickShards: 4, ThoroughShards: 16},
+		evid.Spec{Name: "TestPropCLINested", Kind: "rapid", Quick: 160, Thorough: 5000, QuickShards: 4, ThoroughShards: 16},
 	)
 	evid.Commands("obipcr")
 	evid.Note("rule", "A case = one primer pair (8..25 IUPAC letters, either case, different lengths, sometimes the same primer twice or a primer and its reverse complement) + budgets 0..3 + min/max barcode length + extension -1/0/1/5/20 + only-full flag + linear|circular + a batch of 1..6 templates, each assembled from a random background (acgt, low-complexity, sprinkled ambiguity codes) and 0..5 planted priming sites (instances of the forward primer, of the reverse-complemented reverse primer, of the reverse primer, of the reverse-complemented forward primer, with 0..budget+1 spoiled positions) separated by gaps drawn around 0 (touching/overlapping sites) and around min-1/min/max/max+1, lead and tail drawn around the flank length (sites at position 0 and at the very end); circular templates are rotated so that the junction falls into a site or into the barcode, and may be shorter than 64 or than the primers. Oracle: brute-force Hamming/IUPAC sites of the forward primer x sites of the reverse-complemented reverse primer on the template and on its reverse complement (positions modulo n on a circular template), amplicons cut with flanks clipped/dropped, compared as multisets of (sequence, direction, forward_match, reverse_match, forward_error, reverse_error) in both directions with PCRSim (each template alone), PCRSlice (the batch, one recycled C buffer) [check amplicons]; the sites themselves through one recycled ApatSequence [sites]; PCRSim(revcomp(template)) = same multiset with flipped directions [strand]; PCRSim(rotated circular template) = same set [rotation]; the obipcr command on FASTA files with -e/-l/-L/--delta/--only-complete-flanking/-c/--batch-size/--max-cpu [obipcr] and with --fragmented, -L 2..8, templates longer than 1000 x L with site pairs planted around the fragment borders, compared as sets [obipcr_fragmented]. Non-trivial = at least one expected amplicon has a mismatched primer or the reverse direction. Distinct = hash of (options, templates[, rotation offsets | command-line shape]). "+
-		"LONG [long_amplicons, long_strand, long_sites, long_rotation, obipcr_long, obipcr_long_fragmented]: the same oracles on templates of 1..15 kb described compactly (length + seed + alphabet of a splitmix64 background, planted sites, reverse-complement flag, rotation) with primers of 14..25 letters, 2..6 planted sites per template whose consecutive sites are start/end partners, the same kind again (two start sites before an end site, two end sites after a start site: nested amplicons) or unrelated, gaps around 1024 (barcode or cut-out segment of 1023/1024/1025 symbols: the limit of the obiseq slice pool), 1100..5000 and the min/max bounds, or short; min 0/1000/1024/1025/1100, max 0/1024/1500/3000/5000, extension -1/0/1/5/20/100/500; batches of 1..3 long templates with short ones in between, a template and its reverse complement in one batch; circular with the junction inside a site or next to it; the obipcr command on such files, and with --fragmented and -L 1025..1300 on templates of 1..1.5 Mb with units (start site, barcode of ~L/1024/1000..L symbols, end site[, second end site]) planted around the fragment borders on both strands. Non-trivial = at least one expected amplicon is reported with more than 1024 symbols. "+
+		"LONG [long_amplicons, long_strand, long_sites, long_rotation, obipcr_long, obipcr_long_fragmented]: the same oracles on templates of 1..35 kb described compactly (length + seed + alphabet of a splitmix64 background, planted sites, reverse-complement flag, rotation) with primers of 14..25 letters, 2..6 planted sites per template whose consecutive sites are start/end partners, the same kind again (two start sites before an end site, two end sites after a start site: nested amplicons) or unrelated, gaps around 1024 (barcode or cut-out segment of 1023/1024/1025 symbols: the limit of the obiseq slice pool), 1100..5000 and the min/max bounds, or short; min 0/1000/1024/1025/1100, max 0/1024/1500/3000/5000, extension -1/0/1/5/20/100/500; batches of 1..3 long templates with short ones in between, a template and its reverse complement in one batch; circular with the junction inside a site or next to it; the obipcr command on such files, and with --fragmented and -L 1025..1300 on templates of 1..1.5 Mb with units (start site, barcode of ~L/1024/1000..L symbols, end site[, second end site]) planted around the fragment borders on both strands. Non-trivial = at least one expected amplicon is reported with more than 1024 symbols. "+
 		"ANNOTATED [annotated, obipcr_nested]: templates carrying generic annotations (strings, integers, booleans, a map) and, 8 times out of 10, some or all of forward_primer/forward_match/forward_error/reverse_primer/reverse_match/reverse_error/direction with values of another experiment; half of the in-process cases (7/10 of the command cases) are two-step histories: outer start site + gap + inner region (0..5 sites of the inner pair) + gap + outer end site, either strand, first PCR with the outer pair (extension -1/0/3/10, bounds around the outer barcode lengths), second PCR with the inner pair on the records the first one returned (PCRSim -> PCRSim and PCRSlice; obipcr | obipcr with the bytes of the first output as file or standard input of the second). Oracle at every step: the model's multiset from the step's template sequence and options alone; forward_primer/reverse_primer = the step's primers (case-insensitive); every non-PCR annotation of the template found unchanged on its amplicons (attribution through the inherited annotation c11_tpl for PCRSlice and the command). Non-trivial = at least one amplicon is expected at the last step from a template record that carries an annotation named like a PCR tag.")
 	evid.Main(m, "C11")
 }
